@@ -79,6 +79,10 @@ def h_unary(ctx, fname, D, P, shape, via='algopy', params=None, cplx=False, layo
             tag = 'p%d%s' % (p, ''.join('_%d' % j for j in i))
             # non-negative integer powers are polynomials: regular everywhere, x0 = 0 included
             dom = 'exp' if (fname in ('powi', 'powi_np') and params['n'] >= 0) else fname
+            if fname == 'powf' and Fraction(params['r']).denominator == 1:
+                # float-typed exponent with an integer value (x**2.0, x**-3.0): analytic for every
+                # non-zero base, negative ones included
+                dom = 'reciprocal'
             x0, ex = x0_for_complex(ctx, dom, tag) if cplx else x0_for(ctx, dom, tag)
             X[(0, p) + i] = x0
             info[(p,) + i] = ex
@@ -316,12 +320,20 @@ def units(tier, seed):
     for (a, b) in ([('3/2', '1/2'), ('1', '3'), ('-1/2', '3/2')] if tier == 'quick' else [('3/2', '1/2'), ('1', '3'), ('1/2', '5/2'), ('2', '2'), ('-1/2', '3/2'), ('-5/2', '1/2')]):
         for (D, P, shape) in cfgs[:2]:
             add('hyperu(%s,%s)/D%d,P%d,%s' % (a, b, D, P, shape), 'h_unary', fname='hyperu', D=D, P=P, shape=shape, params={'a': a, 'b': b})
+    # high degree: table-driven helpers (factorials, binomials) beyond 20! (int64 range); 22! is the last factorial that is an exact double
+    for fname in (['gammaln', 'psi'] if tier == 'quick' else ['gammaln', 'psi', 'exp', 'sin', 'log', 'erf', 'dawsn']):
+        add('%s/D23,P1,()' % fname, 'h_unary', fname=fname, D=23, P=1, shape=())
+    add('polygamma1/D23,P1,()', 'h_unary', fname='polygamma', D=23, P=1, shape=(), params={'m': 1})
+    add('hyperu(3/2,1/2)/D23,P1,()', 'h_unary', fname='hyperu', D=23, P=1, shape=(), params={'a': '3/2', 'b': '1/2'})
     for n in range(-3, 6):
         add('pow_int(%d)/D%d,P2' % (n, powD), 'h_unary', fname='powi', D=powD, P=2, shape=(2,), params={'n': n})
     for n in ([3, 4] if tier == 'quick' else [0, 1, 2, 3, 4, 6]):
         add('pow_npint(%d)/D%d,P1' % (n, powD), 'h_unary', fname='powi_np', D=powD, P=1, shape=(), params={'n': n})
     for r in (['1/2', '5/2', '-3/2'] if tier == 'quick' else ['1/2', '5/2', '-3/2', '1/3', '7/4', '-1/2']):
         add('pow_float(%s)/D%d,P2' % (r, powD), 'h_unary', fname='powf', D=powD, P=2, shape=(), params={'r': r})
+    for r in (['2', '3', '-2'] if tier == 'quick' else ['2', '3', '4', '-1', '-2', '-3']):
+        add('pow_float(%s.0), integer-valued float exponent, base of either sign/D%d,P2' % (r, min(powD, 5)), 'h_unary', fname='powf',
+            D=min(powD, 5), P=2, shape=(), params={'r': r})
     # complex coefficients (where NumPy/SciPy support them and the oracle is rational in the atoms)
     cD, cP = (3, 1) if tier == 'quick' else (6, 2)
     for fname in ['exp', 'expm1', 'log', 'log1p', 'sqrt', 'sin', 'cos', 'sinh', 'cosh', 'reciprocal', 'square']:
